@@ -6,6 +6,7 @@ import (
 	"fmt"
 	"sort"
 	"sync"
+	"time"
 
 	"cedarverif/internal/core"
 	"cedarverif/internal/kit"
@@ -33,7 +34,9 @@ func run(c *core.Ctx) {
 	wg.Add(1)
 	go func() {
 		defer wg.Done()
-		kit.ModelCheck(c, "Server.tla", mc, tlc.Options{Workers: 12})
+		// 0.5 M states (quick) / 3.5 M states (thorough); the generous timeout only
+		// matters on a machine that is busy with other work
+		kit.ModelCheck(c, "Server.tla", mc, tlc.Options{Workers: 12, Timeout: 25 * time.Minute})
 	}()
 	parts := make([][]*srvreplay.Scenario, len(gens))
 	for gi, g := range gens {
